@@ -10,7 +10,8 @@ inside one vm_compute:
 Oracle (the property text on the real objects): the loaded object has exactly the surviving
 attributes at every attribute-nested level, each equal to the one loaded without any skipping;
 skipping names at load time == at save time; recorded lists suffice on a later plain load;
-absent names change nothing.  Plus Ptychography.save's own skip=["_dset","dset"] on a toy
+absent names change nothing; a store holding every attribute whose root metadata gets skip lists
+(names and types) written into it afterwards loads like an explicit load-time skip.  Plus Ptychography.save's own skip=["_dset","dset"] on a toy
 reconstruction object."""
 from __future__ import annotations
 
@@ -112,7 +113,7 @@ def _run(ctx: Ctx):
     fut = G.pool().submit(run_ptycho_case)
     results = G.run_cases(cases)
     exprs, idx = [], []
-    n_sel = n_asym = n_asym_seen = 0
+    n_sel = n_asym = n_asym_seen = n_rec = 0
     for case, res in zip(cases, results):
         if res.get("harness_exc"):
             raise RuntimeError("harness failure on case %s: %s" % (case["id"], res["harness_exc"]))
@@ -130,6 +131,7 @@ def _run(ctx: Ctx):
         for k, v in res["stats"].items():
             ctx.dist("kind/" + k, v)
         n_sel += bool(res.get("save_eq_load_done"))
+        n_rec += bool(res.get("recorded_only_done"))
         ctx.count(G.case_hash(case), nontrivial=bool(skipped_present or case["skip_save_types"]))
         if case["container_objects"]:
             n_asym += 1
@@ -145,6 +147,7 @@ def _run(ctx: Ctx):
                 clist(cs(x) for x in case["skip_load_names"]), res["v"], res["obs"], res["ld"]))
             idx.append((case, res))
     ctx.dist("runs/save-eq-load", n_sel)
+    ctx.dist("runs/recorded-lists-only", n_rec)
     ctx.cov["observed_asymmetry"] = {
         "what": "objects nested in containers are pruned by save(skip=names) but not by load(skip=names) "
                 "(_deserialize_container calls _recursive_load without skip lists); outside C14's quantifier",
